@@ -354,6 +354,10 @@ def doc_faults(rng, rule_doc, macro_files, rule_rel="rule.yaml", max_per_kind=6,
         if _certified_malformed(t):
             cands.append((f"malformed:torn@{c}", t))
             ncut += 1
+    # a document separator in front of a top-level section: a YAML stream of two documents
+    tops = [i for i, ln in enumerate(lines) if ln and not ln[0].isspace() and ln[0] not in "-#" and ":" in ln]
+    for i in tops[1:]:
+        cands.append((f"malformed:doc_separator_before_{lines[i].split(':')[0]}", "\n".join(lines[:i] + ["---"] + lines[i:])))
     for label, t in cands:
         if _certified_malformed(t):
             add(label, raw=t, klass="malformed")
